@@ -30,6 +30,7 @@ type hist struct {
 	fee     *types.Currency // fee of the next transactions while set (scripted histories control fee rates)
 	plain   bool            // scripted histories: blocks carry no contract operations of their own
 	long    bool            // C13: long branches around the 144 boundary
+	farNode int             // long histories: the end of the losing branch (more than 144 blocks from the tip)
 }
 
 func (h *hist) tipLedger() *mat.Ledger { return h.s.Ledger(h.x.Tip) }
@@ -818,8 +819,10 @@ func (h *hist) run(steps int) {
 				h.x.Obs()
 			case r < 80:
 				h.rebaseStep()
-			case r < 95:
+			case r < 92:
 				h.txsetStep()
+			case r < 96:
+				h.hostileResubmissions(0)
 			default:
 				h.mineAdopt()
 				h.x.Obs()
@@ -1130,6 +1133,7 @@ func (h *hist) scriptMixedInputs(k int) {
 	basis0 := h.x.Tip
 	h.x.Res.Count("set_mixed-inputs-scripted", 1)
 	h.x.AddSet("v2", basis0, []Inst{{T: parent.Name}, {T: child.Name}, {T: sibling.Name}, {T: three.Name}})
+	h.hostileResubmissions(0)
 	// a block that confirms ONLY the parent; right after it -- before anybody looks at the pool -- the
 	// broadcast set of a GRANDCHILD (not submitted) is asked for: its pooled parent, the child, is still
 	// unconfirmed and must be part of the set
@@ -1138,6 +1142,7 @@ func (h *hist) scriptMixedInputs(k int) {
 	h.x.TxSetNow(grand.Name, h.x.Tip)
 	h.x.Obs()
 	h.x.TxSet(grand.Name, h.x.Tip)
+	h.hostileResubmissions(0)
 	h.x.AddSet("v2", basis0, []Inst{{T: child.Name}})
 	h.x.AddSet("v2", basis0, []Inst{{T: child.Name}, {T: sibling.Name}})
 	h.x.AddSet("v2", basis0, []Inst{{T: parent.Name}, {T: child.Name}, {T: sibling.Name}, {T: three.Name}})
@@ -1151,6 +1156,7 @@ func (h *hist) scriptMixedInputs(k int) {
 	h.x.Rebase([]int{child.Name, three.Name}, basis0, h.x.Tip, "none")
 	h.x.LookupSweep()
 	h.extend(1)
+	h.hostileResubmissions(0)
 }
 
 // scriptCrossKindEviction (seed class C13-e): v1 and v2 share ONE weight limit.  A low-fee-rate v2
@@ -1332,6 +1338,46 @@ func (h *hist) scriptBoundary(k int) {
 	h.x.MineStep()
 }
 
+// hostileResubmissions (seed class C13-g): sets whose transactions are ALREADY POOLED -- the whole
+// pool and subsets -- come back with an unknown basis, a corrupted proof, a wrong leaf index, a
+// truncated / extended proof, (when the tree has one) a basis beyond the supported distance, and as the
+// empty set with an unknown basis.  Transaction ids do not cover proofs, so only examining the basis
+// and the proofs can tell; every variant must be answered with an error.
+func (h *hist) hostileResubmissions(far int) {
+	h.x.ensureFresh()
+	pool := append([]int{}, h.x.p2...)
+	if h.x.dead || len(pool) == 0 {
+		return
+	}
+	sub := func(k int) []Inst {
+		var s []Inst
+		for _, n := range pool[:k] {
+			s = append(s, Inst{T: n})
+		}
+		return s
+	}
+	whole := len(pool)
+	part := 1 + h.rng.Intn(whole)
+	h.x.Res.Count("set_hostile-resubmission", 1)
+	h.x.AddSet("v2", 0, sub(whole)) // unknown basis
+	h.x.AddSet("v2", 0, sub(part))
+	h.x.AddSet("v2", 0, nil) // the empty set with an unknown basis
+	for _, how := range []string{"proof", "leaf", "leafbig", "prooflen"} {
+		k := whole
+		if h.rng.Intn(2) == 0 {
+			k = part
+		}
+		s := sub(k)
+		i := h.rng.Intn(len(s))
+		s[i].Bad, s[i].Corrupt = true, how
+		h.x.AddSet("v2", h.x.Tip, s)
+	}
+	if far >= 1 {
+		h.x.AddSet("v2", far, sub(part)) // a basis more than 144 blocks away
+	}
+	h.x.AddSet("v2", h.x.Tip, sub(whole)) // and the honest resubmission: known
+}
+
 // scriptedRun plays one of the directed interplay histories.
 func (h *hist) scriptedRun(k int) {
 	if err := h.x.Reset(); err != nil {
@@ -1363,6 +1409,7 @@ func (h *hist) longPrefix(la, lb int) {
 		a = h.addBlock(a)
 	}
 	h.submit(a)
+	h.farNode = a
 	b := fork
 	for i := 0; i < lb; i++ {
 		b = h.addBlock(b)
@@ -1458,6 +1505,20 @@ func TestDriver(t *testing.T) {
 					h.longPrefix(longA, longB)
 					// continue the same history without a second Reset
 					for i := 0; i < steps && !x.dead; i++ {
+						if i == 3 || i == steps/2 {
+							// pooled sets resubmitted with hostile bases / proofs, incl. a basis beyond 144 blocks
+							if len(x.p2) == 0 {
+								if e, ok := h.freshInput(h.tipLedger(), h.pooledInputs()); ok {
+									x.AddSet("v2", x.Tip, []Inst{{T: h.newTx(h.tipLedger(), true, []types.SiacoinElement{e}, 2).Name}})
+								}
+							}
+							far := 0
+							if h.farNode >= 1 && x.treeDist(h.farNode, x.Tip) > 144 {
+								far = h.farNode
+							}
+							h.hostileResubmissions(far)
+							continue
+						}
 						if r := rng.Intn(10); r < 8 {
 							h.rebaseStep()
 						} else if r < 9 {
